@@ -364,7 +364,7 @@ static int Convert_mus2midi(uint8_t *in, uint32_t insize,
                 break;
             case MUSEVENT_PITCHWHEEL:
                 status |= 0xE0;
-                bit1 = (*cur & 1) >> 6;
+                bit1 = (*cur & 1) << 6;
                 bit2 = (*cur++ >> 1) & 127;
                 break;
             case MUSEVENT_CHANNELMODE:
